@@ -20,6 +20,7 @@ import (
 
 	wasmkeeper "github.com/CosmWasm/wasmd/x/wasm/keeper"
 	wasm "github.com/CosmWasm/wasmd/x/wasm/types"
+	"github.com/cosmos/cosmos-sdk/crypto/keys/secp256k1"
 
 	abci "github.com/cometbft/cometbft/abci/types"
 	storetypes "github.com/cosmos/cosmos-sdk/store/types"
@@ -30,6 +31,7 @@ import (
 
 	. "verifharness/hx"
 
+	"github.com/NibiruChain/nibiru/v2/eth"
 	"github.com/NibiruChain/nibiru/v2/x/evm"
 	"github.com/NibiruChain/nibiru/v2/x/evm/evmtest"
 )
@@ -38,7 +40,8 @@ type txWorld struct {
 	c        *Chain
 	acc      evmtest.EthPrivKeyAcc
 	keys     []storetypes.StoreKey
-	wasmAddr sdk.AccAddress // hello_world_counter instance (script transactions)
+	wasmAddr sdk.AccAddress     // hello_world_counter instance (script transactions)
+	hostile  gethcommon.Address // hostile ERC20 (token_test.go) registered as FunToken by an ordinary account
 }
 
 func newTxWorld(t *testing.T) *txWorld {
@@ -62,6 +65,36 @@ func newTxWorld(t *testing.T) *txWorld {
 		t.Fatal(err)
 	}
 	w.c.EndBlock()
+	// the hostile ERC20: deployed by a creation transaction, registered with a MsgCreateFunToken transaction
+	{
+		c := w.c
+		c.BeginBlock(5 * time.Second)
+		nonce := uint64(0)
+		if a := c.App.AccountKeeper.GetAccount(c.Ctx(), w.acc.NibiruAddr); a != nil {
+			nonce = a.GetSequence()
+		}
+		w.hostile = crypto.CreateAddress(w.acc.EthAddr, nonce)
+		dmsg, err := c.SignEth(w.acc, &evm.EvmTxArgs{Nonce: nonce, GasLimit: 3_000_000, GasPrice: big.NewInt(1_000_000_000_000), Input: wrapInit(hostileTokenRuntime()), Amount: big.NewInt(0)})
+		if err != nil {
+			t.Fatal(err)
+		}
+		if r := c.DeliverEth(dmsg); r.Code != 0 {
+			t.Fatalf("deploy hostile token: %s", r.Log)
+		}
+		c.EndBlock()
+		owner := secp256k1.GenPrivKeyFromSecret([]byte("c08-token-owner"))
+		ownerAddr := sdk.AccAddress(owner.PubKey().Address())
+		c.BeginBlock(5 * time.Second)
+		if err := c.Fund(ownerAddr, Unibi(1e12).Add(c.App.EvmKeeper.FeeForCreateFunToken(c.Ctx())...)); err != nil {
+			t.Fatal(err)
+		}
+		c.EndBlock()
+		c.BeginBlock(5 * time.Second)
+		if r := c.DeliverCosmos(owner, 5_000_000, Unibi(1_000_000), &evm.MsgCreateFunToken{FromErc20: &eth.EIP55Addr{Address: w.hostile}, Sender: ownerAddr.String()}); r.Code != 0 {
+			t.Fatalf("MsgCreateFunToken(hostile erc20): %s", r.Log)
+		}
+		c.EndBlock()
+	}
 	for _, n := range []string{"bank", "evm", "wasm", "oracle"} {
 		var k storetypes.StoreKey
 		if kk := w.c.App.GetKey(n); kk != nil {
@@ -96,6 +129,21 @@ func (w *txWorld) runTx(in c08In) c08Obs {
 	obs := c08Obs{Args: []c08Arg{}, DropEq: true}
 	obs.Method, obs.UnpackOK, obs.Args = decode(in.PC, data)
 	c := w.c
+	if in.Token != nil {
+		// the token's configure() is called by an ordinary transaction of its own
+		c.BeginBlock(5 * time.Second)
+		n := uint64(0)
+		if a := c.App.AccountKeeper.GetAccount(c.Ctx(), w.acc.NibiruAddr); a != nil {
+			n = a.GetSequence()
+		}
+		cmsg, err := c.SignEth(w.acc, &evm.EvmTxArgs{Nonce: n, GasLimit: 1_000_000, GasPrice: big.NewInt(1_000_000_000_000), To: &w.hostile, Input: in.Token.configCalldata(), Amount: big.NewInt(0)})
+		if err == nil {
+			if r := c.DeliverEth(cmsg); r.Code != 0 {
+				obs.Note = note("configure token: " + r.Log)
+			}
+		}
+		c.EndBlock()
+	}
 	c.BeginBlock(5 * time.Second)
 	defer c.EndBlock()
 	intrinsic, _ := core.IntrinsicGas(data, nil, false, true, true)
@@ -128,6 +176,7 @@ func (w *txWorld) runTx(in c08In) c08Obs {
 			obs.Reached, obs.Class = true, "panic"
 			obs.PanicOOG = strings.Contains(lower, "out of gas")
 			obs.PanicInt = strings.Contains(lower, "integer overflow")
+			obs.PanicSlice = strings.Contains(lower, "slice bounds out of range") || strings.Contains(lower, "index out of range")
 		} else if strings.Contains(lower, "out of gas") {
 			// the gas meter's panic travelled up to baseapp's out-of-gas recovery: the tx was aborted
 			obs.Reached, obs.Class, obs.PanicOOG = true, "panic", true
@@ -328,6 +377,34 @@ func (w *txWorld) txSeqInputs() []c08In {
 	}
 }
 
+// txTokenInputs: FunToken methods that call the registered hostile ERC20, as the transaction's own call
+func (w *txWorld) txTokenInputs() []c08In {
+	ft := abiOf(0)
+	to := gethcommon.HexToAddress("0xa11ce")
+	bal := hex.EncodeToString(mustPack(ft, "balance", to, w.hostile))
+	stb := hex.EncodeToString(mustPack(ft, "sendToBank", w.hostile, big.NewInt(5), to.Hex()))
+	panicWith := func(n int) []byte { return append(append([]byte{}, selPanic...), make([]byte, n)...) }
+	var out []c08In
+	for _, c := range []struct {
+		name string
+		tk   *c08Token
+	}{
+		{"revert-empty", tok(0, nil)},
+		{"revert-bare-panic-selector", tok(0, selPanic)},
+		{"revert-panic-20", tok(0, panicWith(16))},
+		{"revert-panic-35-mem35", &c08Token{Mode: 0, Len: 35, Data: hex.EncodeToString(panicWith(31)), Mem: 35}},
+		{"revert-panic-valid", tok(0, append(append([]byte{}, selPanic...), word(big.NewInt(0x11))...))},
+		{"revert-bare-error-selector", tok(0, selError)},
+		{"return-1-byte", tok(1, []byte{1})},
+		{"all-gas", tok(2, nil)},
+	} {
+		out = append(out,
+			c08In{PC: 0, Kind: "tx", Value: "0", Gas: 3_000_000, Data: bal, Label: "tx/token-" + c.name, Token: c.tk},
+			c08In{PC: 0, Kind: "tx", Value: "0", Gas: 3_000_000, Data: stb, Label: "tx/token-" + c.name, Token: c.tk})
+	}
+	return out
+}
+
 func (w *world) txInputs() []c08In {
 	var out []c08In
 	for _, in := range w.openers() {
@@ -372,6 +449,9 @@ func TestC08Tx(t *testing.T) {
 	w := newTxWorld(t)
 	if cfg.Replay == "" {
 		inputs = append(inputs, w.txSeqInputs()...)
+	}
+	if cfg.Replay == "" {
+		inputs = append(inputs, w.txTokenInputs()...)
 	}
 	for _, in := range inputs {
 		if in.Kind == "txcall" {
